@@ -61,6 +61,8 @@ type c20Scenario struct {
 	CancelStep int    `json:"cancel_at_step"`      // 0 = none
 	SlowEvery  int    `json:"consumer_slow_every"` // 0 = fast consumer
 	SlowFor    string `json:"consumer_slow_for"`
+	StopAtCancel bool `json:"consumer_stops_at_cancel,omitempty"` // nobody drains the error channel after the cancel
+	StallAfter   int  `json:"consumer_stalls_after,omitempty"`    // the consumer stops after this many errors, cancels 50 ms later and walks away
 }
 
 type c20Reader struct {
@@ -273,7 +275,33 @@ func c20Generate(p picker, o Opts) c20Scenario {
 		d := p.dur("slowfor", time.Millisecond, 30*time.Millisecond)
 		sc.SlowFor = d.String()
 	}
+	if (sc.CancelCall >= 0 || sc.CancelStep > 0) && p.pct("stopatcancel", 25) {
+		sc.StopAtCancel = true
+	}
+	if o.Index >= total*2 && p.pct("stall", 6) {
+		// error burst far beyond the 100-slot buffer against a consumer that gives up
+		sc.StopAtCancel = true
+		sc.StallAfter = 1 + p.n("stallafter", 40)
+		sc.CancelCall, sc.CancelStep = -1, 0
+		script = script[:0]
+		for i, l := 0, 120+p.n("stalllen", 200); i < l; i++ {
+			script = append(script, []byte{oUnknown, oProcErr, oFrame}[p.n("se", 3)])
+		}
+		sc.Script = string(script)
+		sc.Variant = sc.Variant[:0]
+		for range script {
+			sc.Variant = append(sc.Variant, p.n("v", 12))
+		}
+	}
 	return sc
+}
+
+// ctxDoneIf returns ctx.Done() if on, else a nil channel (never ready).
+func ctxDoneIf(on bool, ctx context.Context) <-chan struct{} {
+	if on {
+		return ctx.Done()
+	}
+	return nil
 }
 
 func runC20(t *testing.T, c simrt.Chooser, o Opts) *Out {
@@ -287,6 +315,7 @@ func runC20(t *testing.T, c simrt.Chooser, o Opts) *Out {
 	proc := &c20Proc{}
 	var got []string
 	closed := false
+	stopped := false
 	var closeT time.Duration
 	res := simrt.Execute(t, simrt.Config{Chooser: c, Trace: o.Trace, SigintStep: sc.CancelStep, MaxSteps: 200000, MaxStepsNoTime: 20000},
 		nil,
@@ -300,7 +329,16 @@ func runC20(t *testing.T, c simrt.Chooser, o Opts) *Out {
 			errc := packet.NewReceiver(rd, proc).ReceivePackets(ctx)
 			n := 0
 			for {
-				e, ok := simrt.Recv2("c20.drain", errc)
+				if sc.StopAtCancel && ctx.Err() != nil {
+					// the consumer walks away at the cancel: the receiver has to end all the same
+					simrt.Sleep("c20.after-cancel", time.Second)
+					stopped = true
+					return
+				}
+				e, ok, canc := simrt.RecvCtx("c20.drain", ctxDoneIf(sc.StopAtCancel, ctx), errc)
+				if canc {
+					continue
+				}
 				if !ok {
 					closed = true
 					closeT = r.Now()
@@ -308,6 +346,12 @@ func runC20(t *testing.T, c simrt.Chooser, o Opts) *Out {
 				}
 				got = append(got, e.Error())
 				n++
+				if sc.StallAfter > 0 && n == sc.StallAfter {
+					simrt.Sleep("c20.stall", 50*time.Millisecond+time.Duration(len(script))*5*time.Millisecond)
+					rd.callsAtCanc = rd.calls
+					simrt.Cancel("c20.cancel", cancel)
+					continue
+				}
 				if sc.SlowEvery > 0 && n%sc.SlowEvery == 0 {
 					simrt.Sleep("c20.slow", slowFor)
 				}
@@ -332,6 +376,25 @@ func runC20(t *testing.T, c simrt.Chooser, o Opts) *Out {
 	expectEnd := fatalAt >= 0 || cancelled
 	if len(res.Panics) > 0 {
 		out.violate("C20.panic", "panic", "panic in %s: %s", res.Panics[0].G, res.Panics[0].Value)
+	}
+	if stopped {
+		// The consumer stopped reading at the cancel and waited a full virtual second: by then the
+		// receiver goroutine must have ended (it may drop the report in flight, never wait for it).
+		simrtProbe(&res, "consumer-stopped-at-cancel")
+		for _, a := range res.Alive {
+			if strings.Contains(a, "receiver.go") {
+				out.violate("C20.cancel-leak", "leak", "receiver goroutine still alive 1s after a cancel with nobody draining the error channel: %s (script %q, %d read calls)", a, sc.Script, rd.calls)
+			}
+		}
+		k := rd.calls
+		_, errs, _, _ := c20Model(script, k)
+		if len(got) > len(errs) || !eqStrs(got, errs[:len(got)]) {
+			out.violate("C20.errors", "errors", "error stream %v is not a prefix of the model's %v (script %q)", got, errs, sc.Script)
+		}
+		out.Stats["reads"] = k
+		out.Nontrivial = len(script) >= 2
+		out.Key = fmt.Sprintf("%s/%d/%d/stop/%016x", sc.Script, sc.CancelCall, sc.CancelStep, res.Hash)
+		return out
 	}
 	if expectEnd && (!closed || res.End != simrt.EndDriverReturned) {
 		out.violate("C20.termination", "no-close", "error channel not closed after fatal outcome/cancel: end=%v calls=%d script=%q blocked=%v", res.End, k, sc.Script, res.Blocked)
